@@ -1,3 +1,282 @@
-/-! C15 model (stub) -/
+import OtelVerif.Gen.OtlpTables
+/-!
+# C15 model — what a failure means on both sides of the OTLP hop
+
+Receiver side (`receiver/otlpreceiver`): `internal/*/otlp.go Export` (zero items → acknowledged without the
+consumer; error → `GetStatusFromError`), `internal/errors/errors.go` (`GetStatusFromError`,
+`GetHTTPStatusCodeFromStatus`), `otlphttp.go` (`readContentType`, `readAndCloseBody`, `handleX`, `writeError`,
+`writeStatusResponse` with `Retry-After` in whole seconds). In front of it: the server-side authenticator
+(confighttp `authInterceptor` → 401, configgrpc `authUnaryServerInterceptor` → Unauthenticated), the
+decompressor (C16 → 400), the mux (404).
+Sender side: `exporter/otlpexporter/otlp.go` (`processError`, `shouldRetry`),
+`exporter/otlphttpexporter/otlp.go` (`export`, `isRetryableStatusCode`, `Retry-After` parsing).
+
+Every table is regenerated (`Gen/OtlpTables.lean`). Core Lean only. Durations are nanoseconds (`Nat`).
+-/
 namespace OtelVerif.C15
+open OtelVerif.Gen
+
+/-- switch-with-default as an association list -/
+def lookupD : List (Nat × Nat) → Nat → Nat → Nat
+  | [], d, _ => d
+  | (k, v) :: r, d, x => if x = k then v else lookupD r d x
+
+/-- what the consumer behind the receiver returned -/
+inductive Outcome
+  | ok
+  | plain (permanent : Bool)                     -- an error without gRPC status (`consumererror.NewPermanent` or not)
+  | status (code : Nat) (retry : Option Nat)     -- an error carrying a gRPC status (possibly wrapped), optional RetryInfo delay (ns)
+deriving DecidableEq, Repr
+
+/-- `status.New(codes.OK, …).Err()` is nil: an error never carries code 0 -/
+def Outcome.wf : Outcome → Prop
+  | .status c _ => c ≠ 0
+  | _ => True
+
+instance : DecidablePred Outcome.wf := fun o => by cases o <;> unfold Outcome.wf <;> infer_instance
+
+/-- `GetStatusFromError`: `none` = no error -/
+def recvStatus : Outcome → Option (Nat × Option Nat)
+  | .ok => none
+  | .plain p => some (if p then OtlpTables.permanentCode else OtlpTables.plainCode, none)
+  | .status c ri => some (c, ri)
+
+structure WireGrpc where
+  code : Nat
+  retry : Option Nat          -- RetryInfo detail, ns
+deriving DecidableEq, Repr
+
+structure WireHttp where
+  status : Nat
+  retryAfter : Option Nat     -- `Retry-After` header, whole seconds
+  bodyCode : Nat              -- `code` of the Status message in the body (0 on success)
+deriving DecidableEq, Repr
+
+def nsPerSec : Nat := 1000000000
+
+/-- the `Retry-After` value `writeStatusResponse` writes for a RetryInfo delay -/
+def secondsOf (ns : Nat) : Nat :=
+  if OtlpTables.retryAfterRoundsUp then (ns + (nsPerSec - 1)) / nsPerSec else ns / nsPerSec
+
+/-- `GetHTTPStatusCodeFromStatus` -/
+def httpOf (c : Nat) : Nat := lookupD OtlpTables.httpOfGrpc OtlpTables.httpOfGrpcDefault c
+
+/-- gRPC: the status error returned by `Export` is what grpc-go puts on the wire -/
+def recvGrpc (o : Outcome) : WireGrpc :=
+  match recvStatus o with
+  | none => ⟨0, none⟩
+  | some (c, ri) => ⟨c, ri⟩
+
+/-- HTTP: `writeError` (the error always carries a status after `GetStatusFromError`) + `writeStatusResponse` -/
+def recvHttp (o : Outcome) : WireHttp :=
+  match recvStatus o with
+  | none => ⟨200, none, 0⟩
+  | some (c, ri) =>
+    let st := httpOf c
+    ⟨st, if OtlpTables.recvThrottleStatuses.contains st then ri.map secondsOf else none, c⟩
+
+inductive Verdict
+  | success
+  | permanent
+  | retryable
+  | throttle (ns : Nat)
+deriving DecidableEq, Repr
+
+/-- otlpexporter `shouldRetry` -/
+def shouldRetry (c : Nat) (ri : Option Nat) : Bool :=
+  OtlpTables.grpcRetryAlways.contains c || (OtlpTables.grpcRetryIfInfo.contains c && ri.isSome)
+
+/-- otlpexporter `processError` -/
+def expGrpc (w : WireGrpc) : Verdict :=
+  if w.code = 0 then .success
+  else if !shouldRetry w.code w.retry then .permanent
+  else match w.retry with
+    | some d => if d ≠ 0 then .throttle d else .retryable
+    | none => .retryable
+
+/-- otlphttpexporter `export` (status part) -/
+def expHttp (w : WireHttp) : Verdict :=
+  if OtlpTables.successLo ≤ w.status ∧ w.status ≤ OtlpTables.successHi then .success
+  else if !OtlpTables.httpRetryable.contains w.status then .permanent
+  else if OtlpTables.expThrottleStatuses.contains w.status then
+    match w.retryAfter with
+    | some s => .throttle (s * nsPerSec)
+    | none => .retryable
+  else .retryable
+
+/-- `Export`: zero items are acknowledged without invoking the consumer. Returns (outcome, consumer calls). -/
+def receive (items : Nat) (sink : Outcome) : Outcome × Nat :=
+  if items = 0 then (.ok, 0) else (sink, 1)
+
+inductive CType | proto | json | other
+deriving DecidableEq, Repr
+
+/-- an HTTP request as the receiver's stack sees it, stage by stage -/
+structure HttpReq where
+  authOk : Option Bool     -- `none`: no authenticator configured
+  encodingOk : Bool        -- Content-Encoding enabled and the reader opens (C16)
+  pathKnown : Bool
+  isPost : Bool
+  ctype : CType
+  bodyDecodes : Bool       -- the (decompressed) body unmarshals as an export request
+  items : Nat
+deriving DecidableEq, Repr
+
+def authStatusHttp : Nat := 401      -- confighttp authInterceptor: http.StatusUnauthorized
+def encodingStatus : Nat := 400      -- confighttp decompressor (C16: `Compression.rejectStatus`)
+def pathStatus : Nat := 404          -- http.ServeMux
+def authCodeGrpc : Nat := 16         -- configgrpc authUnaryServerInterceptor: codes.Unauthenticated
+def undecodableCodeGrpc : Nat := 13  -- grpc-go: "error unmarshalling request" → codes.Internal
+
+/-- receiver `errorHandler` (what confighttp calls for auth / decompressor rejections): answers in the
+request's content type; without a usable one it either keeps the decided status (JSON body) or, on a tree
+where `errorHandlerKeepsStatus = false`, answers the fixed 500 fallback -/
+def errorHandlerStatus (ct : CType) (st : Nat) : Nat :=
+  if ct = .other ∧ !OtlpTables.errorHandlerKeepsStatus then 500 else st
+
+/-- the HTTP server stack in order: auth → decompressor → mux → method → content type → unmarshal → Export.
+Returns (status line facts, consumer calls). Statuses of rejected requests carry no Retry-After. -/
+def httpFront (r : HttpReq) (sink : Outcome) : WireHttp × Nat :=
+  if r.authOk = some false then (⟨errorHandlerStatus r.ctype authStatusHttp, none, 16⟩, 0)
+  else if !r.encodingOk then (⟨errorHandlerStatus r.ctype encodingStatus, none, 3⟩, 0)
+  else if !r.pathKnown then (⟨pathStatus, none, 0⟩, 0)
+  else if !r.isPost then (⟨OtlpTables.methodStatus, none, 0⟩, 0)
+  else if r.ctype = .other then (⟨OtlpTables.contentTypeStatus, none, 0⟩, 0)
+  else if !r.bodyDecodes then
+    (⟨OtlpTables.unmarshalStatus, none, lookupD OtlpTables.grpcOfHttp OtlpTables.grpcOfHttpDefault OtlpTables.unmarshalStatus⟩, 0)
+  else
+    let (o, calls) := receive r.items sink
+    (recvHttp o, calls)
+
+structure GrpcReq where
+  authOk : Option Bool
+  bodyDecodes : Bool
+  items : Nat
+deriving DecidableEq, Repr
+
+/-- grpc-go decodes the request inside the generated method handler *before* it calls the interceptor chain,
+so an undecodable frame is answered before the authenticator is consulted -/
+def grpcFront (r : GrpcReq) (sink : Outcome) : WireGrpc × Nat :=
+  if !r.bodyDecodes then (⟨undecodableCodeGrpc, none⟩, 0)
+  else if r.authOk = some false then (⟨authCodeGrpc, none⟩, 0)
+  else
+    let (o, calls) := receive r.items sink
+    (recvGrpc o, calls)
+
+/-! ## the OTLP specification's tables (hand-written; trusted transcription)
+
+OTLP spec, "OTLP/gRPC — Failures": retryable: CANCELLED, DEADLINE_EXCEEDED, ABORTED, OUT_OF_RANGE, UNAVAILABLE,
+DATA_LOSS; RESOURCE_EXHAUSTED "only if the server signals that the recovery from resource exhaustion is
+possible" (RetryInfo); every other code is not retryable. "OTLP/gRPC Throttling": the client SHOULD honour
+`RetryInfo.retry_delay`.
+"OTLP/HTTP — Failures / Retryable Response Codes": 429, 502, 503, 504 are retryable; all other 4xx/5xx MUST NOT
+be retried. "OTLP/HTTP Throttling": 429/503 MAY carry `Retry-After`, which the client SHOULD honour. -/
+
+def specGrpcRetryable (c : Nat) (hasRetryInfo : Bool) : Bool :=
+  c = 1 || c = 4 || c = 10 || c = 11 || c = 14 || c = 15 || (c = 8 && hasRetryInfo)
+
+def specHttpRetryable (st : Nat) : Bool := st = 429 || st = 502 || st = 503 || st = 504
+
+def specGrpc (w : WireGrpc) : Verdict :=
+  if w.code = 0 then .success
+  else if !specGrpcRetryable w.code w.retry.isSome then .permanent
+  else match w.retry with
+    | some d => if d = 0 then .retryable else .throttle d
+    | none => .retryable
+
+def specHttp (w : WireHttp) : Verdict :=
+  if 200 ≤ w.status ∧ w.status ≤ 299 then .success
+  else if !specHttpRetryable w.status then .permanent
+  else if w.status = 429 ∨ w.status = 503 then
+    match w.retryAfter with
+    | some s => .throttle (s * nsPerSec)
+    | none => .retryable
+  else .retryable
+
+/-- the collector's documented gRPC→HTTP mapping for explicit statuses (receiver README / spec note) -/
+def specHttpOf (c : Nat) : Nat :=
+  if c = 1 ∨ c = 4 ∨ c = 10 ∨ c = 11 ∨ c = 14 ∨ c = 15 then 503
+  else if c = 8 then 429
+  else if c = 3 then 400
+  else if c = 16 then 401
+  else if c = 7 then 403
+  else if c = 12 then 404
+  else 500
+
+def Verdict.isRetry : Verdict → Bool
+  | .retryable => true
+  | .throttle _ => true
+  | _ => false
+
+/-! ## the property on one observed hop (search oracle) -/
+
+inductive Transport | grpc | http
+deriving DecidableEq, Repr
+
+/-- what the harness sees of one export through the hop -/
+structure Hop where
+  transport : Transport
+  items : Nat
+  sink : Outcome               -- what the scripted consumer returns when invoked
+  wireCode : Nat               -- gRPC: status code; HTTP: code in the Status body (0 on success)
+  httpStatus : Nat             -- HTTP only (0 for gRPC)
+  wireRetry : Option Nat       -- gRPC: RetryInfo ns; HTTP: Retry-After seconds
+  verdict : Verdict            -- the exporter's classification of its own returned error
+  calls : Nat                  -- consumer invocations caused by the exporter's request
+  payloadEq : Bool             -- the consumer saw exactly what was sent (vacuously true if not invoked)
+  authFail : Bool := false     -- an authenticator is configured and the request does not satisfy it
+
+def Hop.effective (x : Hop) : Outcome := if x.items = 0 then .ok else x.sink
+
+/-- first failing clause of a list of (violated?, signature) pairs -/
+def firstFail : List (Bool × String) → Option String
+  | [] => none
+  | (c, s) :: r => if c then some s else firstFail r
+
+def Hop.wireRetryable (x : Hop) : Bool :=
+  match x.transport with
+  | .grpc => specGrpcRetryable x.wireCode x.wireRetry.isSome
+  | .http => specHttpRetryable x.httpStatus
+
+/-- the specification's classification of what is on the wire -/
+def Hop.want (x : Hop) : Verdict :=
+  match x.transport with
+  | .grpc => specGrpc ⟨x.wireCode, x.wireRetry⟩
+  | .http => specHttp ⟨x.httpStatus, x.wireRetry, x.wireCode⟩
+
+def Hop.tname (x : Hop) : String := match x.transport with | .grpc => "grpc" | .http => "http"
+
+/-- the clauses of the property on one hop, each as (violated?, signature) -/
+def hopClauses (x : Hop) : List (Bool × String) :=
+  let o := x.effective
+  let t := x.tname
+  if x.authFail then
+    -- unauthenticated: the protocol's client-error status, never reaches the consumer, not retried
+    [ (x.calls != 0, "C15/" ++ t ++ "/unauthenticated-reached-consumer"),
+      ((match x.transport with
+        | .grpc => x.wireCode != 16
+        | .http => decide (x.httpStatus < 400) || decide (499 < x.httpStatus)), "C15/" ++ t ++ "/unauthenticated-not-client-error"),
+      (x.verdict != .permanent, "C15/" ++ t ++ "/unauthenticated-not-permanent") ]
+  else
+    [ (x.calls != (if x.items = 0 then 0 else 1), "C15/" ++ t ++ "/consumer-call-count"),
+      (!x.payloadEq, "C15/" ++ t ++ "/payload-differs"),
+      (decide (x.verdict = .success) != decide (o = .ok), "C15/" ++ t ++ "/success-iff-accepted"),
+      -- what the wire carries
+      ((match o with | .status c _ => x.wireCode != c | _ => false), "C15/" ++ t ++ "/explicit-status-not-reported"),
+      ((match o with | .status c _ => x.transport == .http && x.httpStatus != specHttpOf c | _ => false),
+        "C15/http/explicit-status-http-mapping"),
+      ((match o with | .status _ ri => x.transport == .grpc && x.wireRetry != ri | _ => false), "C15/grpc/retry-info-altered"),
+      ((match o with | .plain true => x.wireRetryable | _ => false), "C15/" ++ t ++ "/permanent-reported-retryable"),
+      ((match o with | .plain false => !x.wireRetryable | _ => false), "C15/" ++ t ++ "/transient-reported-permanent"),
+      -- the sender classifies what it received as the specification's tables prescribe
+      (x.verdict != x.want, "C15/" ++ t ++ "/sender-classification-differs-from-spec"),
+      -- a requested delay is honoured: never shorter than asked, never dropped
+      ((match o, x.verdict with | .status _ (some d), .throttle d' => decide (d' < d) | _, _ => false),
+        "C15/" ++ t ++ "/retry-after-truncated"),
+      ((match o, x.verdict with | .status _ (some d), .retryable => d != 0 | _, _ => false),
+        "C15/" ++ t ++ "/requested-delay-dropped") ]
+
+/-- executable check of the property's clauses on one hop; `none` = fine, `some sig` = violated -/
+def hopCheck (x : Hop) : Option String := firstFail (hopClauses x)
+
 end OtelVerif.C15
